@@ -4,7 +4,7 @@ _Bool G_step_fell;        /* set by the outlined loop body when it falls off its
 /* loop 1: the chunk loop. pos never leaves [bodyStart, size]; no exception is pending at the loop head;
  * variant: the distance to the end of the buffer (every iteration consumes at least the 2-byte line terminator). */
 #define IORA_LOOP_HttpServer_findChunkedRequestEnd_1 IORA_LC( \
-  __CPROVER_assigns(pos, iora_exc, iora_exc_caught, G_stoul_calls, G_stoul_off, G_stoul_n, G_stoul_ret, G_stoul_exc) \
+  __CPROVER_assigns(pos, iora_exc, iora_exc_caught, G_stoul_calls, G_stoul_off, G_stoul_n, G_stoul_ret, G_stoul_exc, G_stoul_used) \
   __CPROVER_loop_invariant(bodyStart <= pos && pos <= data.n && iora_exc == EXC_NONE) \
   __CPROVER_loop_invariant(G_stoul_calls == 0 || G_stoul_off < pos) \
   __CPROVER_decreases(data.n - pos))
